@@ -63,8 +63,8 @@ func checkObsLog(out *CaseOut, recs [][]string, ctx string) int {
 			if r.oldS == 2 && (r.newS != 2 || r.newSize != r.oldSize) {
 				out.violate(fmt.Sprintf("unit:succeeded-not-final:->%d:%s", r.newS, r.role), "%s: %s rewrote a Succeeded record (size %d) to state %d size %d", ctx, r.role, r.oldSize, r.newS, r.newSize)
 			}
-			if r.oldS == 1 && r.newS == 1 && r.newSize < r.oldSize {
-				out.violate("unit:output-size-shrank:"+r.role, "%s: %s shrank the recorded output size %d -> %d while running", ctx, r.role, r.oldSize, r.newSize)
+			if r.oldS >= 1 && r.newSize < r.oldSize {
+				out.violate("unit:output-size-shrank:"+r.role, "%s: %s shrank the recorded output size %d -> %d (state %d -> %d)", ctx, r.role, r.oldSize, r.newSize, r.oldS, r.newS)
 			}
 		}
 	}
